@@ -56,10 +56,15 @@ class FaultNet(Network):
         self.escapes = []         # exceptions that escaped a receiving stack
         self.held = []
         self.delivered = 0
+        self.frame_cap = 6000     # frame budget: beyond it the medium goes silent and the run is reported as not terminating
+        self.overflow = False
 
     # ------------------------------------------------------------------
     def process_pdu(self, pdu):
         n = len(self.frames)
+        if n >= self.frame_cap:
+            self.overflow = True
+            return
         rec = {"n": n, "t": CLOCK.now, "lan": self.name, "src": pdu.pduSource, "dst": pdu.pduDestination,
                "octets": bytes(pdu.pduData)}
         self.frames.append(rec)
